@@ -137,7 +137,7 @@ MarkIDs(d, next) ==
 \* invalidateTags (manager.go:602-631): id-only tags are decided directly for added streams
 Invalidate(tg, upd, res, add, next, all) ==
     Inherit([t \in DOMAIN tg |->
-        IF FeatSub(tg[t].def) THEN [tg[t] EXCEPT !.U = all]
+        IF FeatSub(tg[t].def) THEN (IF upd \cup res \cup add = {} THEN tg[t] ELSE [tg[t] EXCEPT !.U = all])
         ELSE IF FeatIdOnly(tg[t].def) THEN [tg[t] EXCEPT !.M = @ \cup (MarkIDs(tg[t].def, next) \cap add)]
         ELSE [tg[t] EXCEPT !.U = @ \cup add \cup res \cup (IF FeatData(tg[t].def) THEN upd ELSE {})]], all)
 \* ... and queued for the converters attached to them
